@@ -88,6 +88,22 @@ impl Host {
     }
 }
 
+impl Host {
+    /// names that a FIDO / WebAuthn specification registers for this kind of map and that the
+    /// crate may adopt one day (used as unknown members only while the adoption probe says so)
+    pub fn registered_elsewhere(self) -> &'static [&'static str] {
+        match self {
+            Host::McExtensions | Host::GaExtensions => {
+                &["credBlob", "getCredBlob", "minPinLength", "credProps", "prf", "largeBlob", "uvm", "hmac-secret-mc", "thirdPartyPayment", "credProtect", "largeBlobKey", "hmac-secret"]
+            }
+            Host::McOptions | Host::GaOptions => &["ep", "alwaysUv", "plat", "clientPin"],
+            Host::McExcludeDescriptor | Host::GaAllowDescriptor | Host::CmDescriptor => &["transports"],
+            Host::McParam => &[],
+            Host::McRp | Host::McUser | Host::CmUser => &[],
+        }
+    }
+}
+
 /// every member name some host map knows (plus the relying party's legacy alias and a descriptor
 /// member of WebAuthn that the crate does not model): in any OTHER host these are unknown members,
 /// and exactly the ones a shared lookup table would confuse
@@ -254,44 +270,50 @@ fn unknown_case(host: Host, src: &mut Src, obs: &mut Obs) -> CaseResult {
     let mut container = false;
     let mut realistic = false;
     for _ in 0..n_unknown {
-        let (kk, vv) = if src.chance(1, 5) {
+        let (mut kk, vv) = if src.chance(1, 5) {
             realistic = true;
-            let (kk, vv) = mutate::realistic_unknown(src);
-            // identifiers registered for other extensions are "unknown" only as long as the crate
-            // has not adopted them: a key that the decoder treats type-sensitively (some value type
-            // rejected or the result changed) is a known member of this host by now, and the
-            // same value is then sent under a made-up key instead
-            let adopted = {
-                // "adopted" = some value under this key is ACCEPTED AND CHANGES the decoded request
-                // (the crate stores it). A key whose values are merely refused for some types, while
-                // nothing is ever stored, is not a member - it is an unknown member handled badly.
-                let mut adopted = false;
-                for t in 0..7 {
-                    let mut v = model.clone();
-                    if let Some(Value::Map(m)) = mutate::get_mut(&mut v, &hp) {
-                        m.push((kk.clone(), mutate::palette(t)));
-                    }
-                    let mut msg = vec![cmd];
-                    msg.extend_from_slice(&refcbor::encode(&v));
-                    let with = Request::deserialize(&msg);
-                    if with.is_ok() && with != Request::deserialize(&base) {
-                        adopted = true;
-                    }
-                }
-                adopted
-            };
-            if adopted {
-                obs.label("realistic-extra:key-treated-as-known");
-            }
-            if adopted || host.known_keys().contains(&kk.as_str().unwrap_or("")) || used.iter().any(|u| Some(&u[..]) == kk.as_text()) {
-                (unknown_key(host, src, &used), vv)
-            } else {
-                (kk, vv)
-            }
+            mutate::realistic_unknown(src)
         } else {
             let depth = *src.pick(&[0usize, 1, 2, 4, 8, 16]);
             (unknown_key(host, src, &used), mutate::any_value(src, depth))
         };
+        // A name that some specification registers FOR THIS KIND OF MAP (extension identifiers in
+        // extension maps, `transports` in a descriptor, further option ids in an options map) is
+        // "unknown" only as long as the crate has not adopted it: if some value under the key is
+        // ACCEPTED AND STORED (the decoded request changes), the crate knows the member by now and
+        // the same value is sent under a made-up key instead. A key whose values are merely refused
+        // for some types while nothing is ever stored is not a member - refusing it is the violation.
+        let name = kk.as_str().unwrap_or("").to_string();
+        if host.registered_elsewhere().contains(&name.as_str()) {
+            let mut adopted = false;
+            for t in 0..7 {
+                let mut v = model.clone();
+                if let Some(Value::Map(m)) = mutate::get_mut(&mut v, &hp) {
+                    m.push((kk.clone(), mutate::palette(t)));
+                }
+                let mut msg = vec![cmd];
+                msg.extend_from_slice(&refcbor::encode(&v));
+                let with = Request::deserialize(&msg);
+                if with.is_ok() && with != Request::deserialize(&base) {
+                    adopted = true;
+                }
+            }
+            if adopted {
+                obs.label("registered-name:treated-as-known-member");
+                for _ in 0..6 {
+                    kk = unknown_key(host, src, &used);
+                    if !host.registered_elsewhere().contains(&kk.as_str().unwrap_or("")) {
+                        break;
+                    }
+                }
+                if host.registered_elsewhere().contains(&kk.as_str().unwrap_or("")) {
+                    kk = Value::Text(format!("zz-made-up-{}", used.len()).into_bytes());
+                }
+            }
+        }
+        if host.known_keys().contains(&kk.as_str().unwrap_or("")) || used.iter().any(|u| Some(&u[..]) == kk.as_text()) {
+            kk = unknown_key(host, src, &used);
+        }
         container |= vv.is_container_or_tag();
         used.push(kk.as_text().unwrap().to_vec());
         members.push((kk, vv));
